@@ -1,5 +1,4 @@
-import UmProofs.BrokerEpochStep
-import UmGen.EpochRecovery
+import UmProofs.BrokerEpochRecover
 /-!
 # C13 — Broker state loss is recoverable by epoch recovery
 
@@ -29,15 +28,6 @@ increments are generated constants).
 -/
 namespace Um.Broker.C13
 open Um Um.Slots Um.Broker Um.Broker.Epoch
-
-open Um.Gen.EpochRecovery in
-/-- `MemBrokerService::recover_epoch` → `MemoryStorage::recover_epoch` → `MetaStore::recover_epoch`
-with `maxProxyEpoch` = the largest epoch reported by any proxy (`fetch_max_epoch`). The two
-increments are re-extracted from the source on every run (`UmGen.EpochRecovery`). -/
-def serviceRecoverEpoch (s : Store) (maxProxyEpoch : Nat) : Store :=
-  let serviceArg := maxProxyEpoch + SERVICE_INC   -- service.rs: `self.storage.recover_epoch(max_epoch + 1)`
-  let storageArg := serviceArg + STORAGE_INC      -- storage.rs: `.recover_epoch(exsting_largest_epoch + 1)`
-  recoverEpoch s storageArg                       -- store.rs:   `max(exsting_largest_epoch, global_epoch + 1)`
 
 /-- the generated constants the statements below depend on: the call chain adds at least one, the
 external-storage variant adds the same as the in-memory one, and `MetaStore::recover_epoch` uses
@@ -91,10 +81,6 @@ theorem C13_views_after_recovery (s : Store) (hs : Reachable s) (E : Nat) (ops :
 
 /-! ## recovery touches nothing but epochs -/
 
-/-- the store with the global epoch and the cluster epochs blanked (migration meta epochs stay) -/
-def eraseEpochs (s : Store) : Store :=
-  { s with globalEpoch := 0, clusters := s.clusters.map fun c => { c with epoch := 0 } }
-
 theorem C13_only_epochs (s : Store) (x : Nat) : eraseEpochs (recoverEpoch s x) = eraseEpochs s := by
   simp only [eraseEpochs, recoverEpoch, List.map_map]
   rfl
@@ -103,26 +89,6 @@ theorem C13_only_epochs (s : Store) (x : Nat) : eraseEpochs (recoverEpoch s x) =
 theorem C13_epoch_blind (P : Store → Prop) (hP : ∀ s1 s2, eraseEpochs s1 = eraseEpochs s2 → P s1 → P s2)
     (s : Store) (x : Nat) (h : P s) : P (recoverEpoch s x) :=
   hP _ _ (C13_only_epochs s x).symm h
-
-theorem resInv_recover (s : Store) (x : Nat) (h : ResInv s) : ResInv (recoverEpoch s x) := by
-  obtain ⟨h1, h2, h3, h4, h5⟩ := h
-  have hmem : ∀ c' ∈ (recoverEpoch s x).clusters, ∃ c ∈ s.clusters,
-      c'.name = c.name ∧ c'.chunks = c.chunks := by
-    intro c' hc'
-    obtain ⟨c, hc, rfl⟩ := List.mem_map.mp hc'
-    exact ⟨c, hc, rfl, rfl⟩
-  have hcl : (recoverEpoch s x).clusters =
-      s.clusters.map fun c => { c with epoch := max x (s.globalEpoch + 1) } := rfl
-  refine ⟨h1, ?_, ?_, ?_, ?_⟩
-  · rw [hcl, List.map_map]; exact h2
-  · rw [hcl, List.flatMap_map]; exact h3
-  · intro c' hc' ch hch
-    obtain ⟨c, hc, hn, hch'⟩ := hmem c' hc'
-    rw [hn]
-    exact h4 c hc ch (hch' ▸ hch)
-  · intro p hp n hn
-    obtain ⟨c, hc, hcn, hpa⟩ := h5 p hp n hn
-    exact ⟨{ c with epoch := _ }, List.mem_map.mpr ⟨c, hc, rfl⟩, hcn, hpa⟩
 
 /-- the invariant packages of `BrokerDefs` survive recovery (`EpochInv` because recovery re-epochs
 consistently, the others because they do not read what recovery writes) -/
@@ -133,29 +99,6 @@ theorem C13_inv_untouched (s : Store) (x : Nat) (h : BrokerInv s) : BrokerInv (r
   exact hc c hcm
 
 /-! ## `MetaStore::restore` (PUT /api/v3/metadata) -/
-
-inductive RestoreErr where
-  | invalidMetaVersion | smallEpoch
-  deriving DecidableEq, Repr
-
-/-- the `SmallEpoch` guard of `MetaStore::restore` (`self.global_epoch > other.global_epoch`; the
-comparison operator is re-extracted from the source: `RESTORE_REJECTS_EQUAL`) -/
-def epochRejected (selfEpoch otherEpoch : Nat) : Bool :=
-  if Um.Gen.EpochRecovery.RESTORE_REJECTS_EQUAL then decide (selfEpoch ≥ otherEpoch)
-  else decide (selfEpoch > otherEpoch)
-
-theorem epochRejected_false {a b : Nat} (h : epochRejected a b = false) : a ≤ b := by
-  unfold epochRejected at h
-  split at h <;> simp at h <;> omega
-
-/-- `MetaStore::restore`: `self.version != other.version` → `InvalidMetaVersion`;
-`self.global_epoch > other.global_epoch` → `SmallEpoch` (the comparison operator is re-extracted:
-`RESTORE_REJECTS_EQUAL`); else `*self = other` (result `none` = `Ok(())`) -/
-def restore (selfVersion : String) (self : Store) (otherVersion : String) (other : Store) :
-    Store × Option RestoreErr :=
-  if selfVersion != otherVersion then (self, some .invalidMetaVersion)
-  else if epochRejected self.globalEpoch other.globalEpoch then (self, some .smallEpoch)
-  else (other, none)
 
 /-- an accepted restore never lowers the global epoch (and installs `other`); a rejected one
 leaves the store untouched -/
